@@ -4,12 +4,12 @@ CONSTANTS Ctx <- McCtxTerm
  Gas <- McGas
  Devs = {}
  Kinds = {"xfer", "vote", "reg", "topup", "unreg", "setrew"}
- From = {"M1"}
- XTo = {"a4"}
+ From = {"a2"}
+ XTo = {"M1", "a4"}
  XAmt = {100}
  Payers = {}
  Voters = {"M1", "a4"}
- Cands = {"M1", "a4", "a3"}
+ Cands = {"M1", "a4", "a3", "M2"}
  RegAmt = {300}
  AFrom = {}
  ATo = {}
@@ -23,7 +23,7 @@ CONSTANTS Ctx <- McCtxTerm
  EmptyOK = TRUE
  MaxTx = 2
  MaxBlk = 3
- MaxTot = 3
+ MaxTot = 2
 VIEW View
 INVARIANTS NonNegative Conservation DepositsBacked VotesAtBoundary SupplyEqualsEquity NothingForbiddenIncluded
 PROPERTIES EndOfBlockIssuesTheReward GasWithinLimit NotIncludedIsFree OnlyOwnEquityDecreases SupplyChangesOnlyByIssuerOrHolder FrozenDoesNotMove
